@@ -332,6 +332,9 @@ def run(c):
   if c.tier == 'thorough':
     hosted_pairs += [(a, b) for a in ('suggestNew', 'suggestOwn', 'suggestPool', 'suggestMd') for b in REQS if (a, b) not in hosted_pairs and b not in ('earlyStop1',) and not b.endswith('Alias') and not b.endswith('OnT')]
   jobs += [('hosted:ram', 'A', a, b, limit) for a, b in hosted_pairs]
+  # an EMPTY study (prefix B), hosted: both calls must ask the algorithm, so the second one's view of the persisted
+  # algorithm state matters (on prefix A one of the two is served from the REQUESTED pool)
+  jobs += [('hosted:ram', 'B', 'suggestNew', 'suggestNew2', limit), ('hosted:ram', 'B', 'suggestNew', 'mdStudy', limit)]
   # two studies, hosted: the real policy objects of both studies run in one process
   jobs += [('hosted:ram', 'D', 'suggestNew', 'suggestOnT', limit), ('hosted:ram', 'D', 'suggestNew', 'createTrialOnT', limit),
            ('ram', 'D', 'suggestNew', 'suggestOnT', limit)]
